@@ -472,6 +472,92 @@ fn part_codec() -> PartResult {
     r
 }
 
+/// A line with more parameters than its verb takes is not "silently misread": either the
+/// surplus is ignored - the server ends in the state the line without the surplus produces,
+/// and later queries are answered alike - or the line is refused with an error and nothing
+/// changes. Differential: two real worlds, same history, `with_extra` vs `plain`.
+pub fn case_extra(with_extra: &str, plain: &str) -> Vec<Finding> {
+    let cfg = Cfg::default();
+    let run = |line: Option<&str>| -> Result<(u128, Vec<String>, Vec<String>), String> {
+        let mut w = World::new(cfg.main_config(), 3);
+        w.register(0, "ann", "au").map_err(|e| e.0)?;
+        w.register(1, "bob", "bu").map_err(|e| e.0)?;
+        w.register(2, "cat", "cu").map_err(|e| e.0)?;
+        for (s, l) in [(0usize, "JOIN #c"), (1, "JOIN #c"), (0, "JOIN #d")] {
+            w.send(s, l).map_err(|e| e.0)?;
+        }
+        w.take_all();
+        let mut own = vec![];
+        if let Some(l) = line {
+            w.send(0, l).map_err(|e| e.0)?;
+            own = w.take_lines(0);
+        }
+        if let Some(c) = w.conns.iter().find_map(|c| if let Life::Panicked(m) = &c.life { Some(m.clone()) } else { None }) {
+            return Err(format!("panic: {}", c));
+        }
+        w.take_all();
+        let mut answers = vec![];
+        for q in ["TOPIC #c", "NAMES #c", "NAMES #d", "WHOIS ann", "WHOIS ann2", "MODE #c", "MODE #d", "PRIVMSG ann :are you away", "ISON ann ann2"] {
+            w.send(2, q).map_err(|e| e.0)?;
+            for l in w.take_lines(2) {
+                answers.push(crate::canon::canon_line("irc.irc", &l));
+            }
+        }
+        let h = crate::canon::hash128(&crate::canon::masked(&w.snapshot()));
+        Ok((h, answers, own))
+    };
+    let (a, b, c) = (run(Some(with_extra)), run(Some(plain)), run(None));
+    match (a, b, c) {
+        (Ok(a), Ok(b), Ok(c)) => {
+            let same_as_plain = a.0 == b.0 && a.1 == b.1;
+            let refused = a.0 == c.0 && a.1 == c.1 && a.2.iter().any(|l| crate::canon::parse_server_line(l).map_or(false, |m| m.cmd.len() == 3 && m.cmd.starts_with(|ch: char| ch == '4' || ch == '5') || m.cmd.starts_with("ERROR")));
+            if same_as_plain || refused {
+                vec![]
+            } else {
+                let diff: Vec<(String, String)> = a.1.iter().zip(b.1.iter()).filter(|(x, y)| x != y).map(|(x, y)| (x.clone(), y.clone())).take(3).collect();
+                vec![finding("arity:surplus-misread", format!("{:?} is neither treated like {:?} nor refused: differing answers afterwards (with surplus, without) {:?}; own replies {:?}", with_extra, plain, diff, a.2))]
+            }
+        }
+        (a, b, c) => vec![finding("arity:surplus-machinery", format!("{:?}: {:?} / {:?} / {:?}", with_extra, a.err(), b.err(), c.err()))],
+    }
+}
+
+const EXTRA_CASES: [(&str, &str); 14] = [
+    ("TOPIC #c first second", "TOPIC #c first"),
+    ("TOPIC #c first :second third", "TOPIC #c first"),
+    ("topic #c third :fourth and fifth", "topic #c third"),
+    ("AWAY gone fishing", "AWAY gone"),
+    ("AWAY gone :for a while", "AWAY gone"),
+    ("NICK ann2 extra", "NICK ann2"),
+    ("KICK #c bob why extra", "KICK #c bob why"),
+    ("PART #c bye extra", "PART #c bye"),
+    ("JOIN #e key extra", "JOIN #e key"),
+    ("MODE ann +i extra", "MODE ann +i"),
+    ("INVITE cat #d extra", "INVITE cat #d"),
+    ("QUIT bye extra", "QUIT bye"),
+    ("PRIVMSG bob hi extra", "PRIVMSG bob hi"),
+    ("OPER nobody pw extra", "OPER nobody pw"),
+];
+
+fn part_extra() -> PartResult {
+    let t0 = Instant::now();
+    let mut r = PartResult::new("fun:surplus-parameters", "E-FUN");
+    for (a, b) in EXTRA_CASES {
+        r.evaluations += 1;
+        for f in case_extra(a, b) {
+            r.violations.push(fv("fun:surplus-parameters", f, json!({"with_extra": a, "plain": b})));
+        }
+    }
+    r.states = r.evaluations;
+    r.transitions = r.evaluations * 3;
+    r.distinct = r.evaluations;
+    r.traces = r.evaluations * 3;
+    r.exhaustive = true;
+    r.samples = vec![json!({"with_extra": "TOPIC #c first second", "plain": "TOPIC #c first", "expect": "same topic afterwards (or an error and no change)"})];
+    r.wall_s = t0.elapsed().as_secs_f64();
+    r
+}
+
 /// One relay case: `kind` carries `text`; the receiver's line re-parsed by the
 /// reference yields the same verb, target and text.
 pub fn case_relay(kind: &str, text: &str) -> Vec<Finding> {
@@ -607,6 +693,9 @@ fn part_relay(max: u32) -> PartResult {
 }
 
 pub fn replay_fun(scenario: &str, input: &Value) -> Vec<Finding> {
+    if scenario == "fun:surplus-parameters" {
+        return case_extra(input["with_extra"].as_str().unwrap_or(""), input["plain"].as_str().unwrap_or(""));
+    }
     match scenario {
         "fun:tokenize" => case_tokenize(input["line"].as_str().unwrap_or("")),
         "fun:arity" => match (input["verb"].as_str(), input["arity"].as_u64()) {
@@ -629,6 +718,7 @@ pub fn plan(quick: bool) -> Plan {
             Part::Custom("fun:arity".into(), Box::new(part_arity)),
             Part::Custom("fun:codec".into(), Box::new(part_codec)),
             Part::Custom("fun:relay".into(), Box::new(move || part_relay(lr))),
+            Part::Custom("fun:surplus-parameters".into(), Box::new(part_extra)),
         ],
     }
 }
